@@ -459,5 +459,12 @@ def run(repo, chk):
     order = sorted(calls, key=lambda t: src(ev[0]).index(t)) if calls else []
     chk.expect(order == ['env.add_funcs(builtin_stubs)', 'env.add_funcs(self.func_decls)'], 'C07.K6', 'Program.evaluate::declaration order',
                f'{order}', PROGRAM)
+    if chk.__class__.__name__ == 'Check':
+        # a catalogue of small programs typechecked by the checker's interpreter: verdict and typed tree as the documented rules say
+        chk.rule('C07.K7', 'typing census: overload resolution over several arguments and arities, return statements, explicit casts of '
+                           'array literals, casts / comparisons / faulting operators that must survive, declarations and operators '
+                           '(catalogue programs, typechecked by interpretation)')
+        from .. import typecensus
+        chk.count('census_programs', typecensus.decide(repo, chk, 'C07.K7', None, 'hidc/ast/expressions.py'))
     chk.exhaustive = False
-    chk.not_decided = ['exactness over all programs (no reference typechecker); typing of every syntactic position']
+    chk.not_decided = ['exactness over all programs (no reference typechecker; the census is a catalogue); typing of every syntactic position']
